@@ -456,6 +456,41 @@ pub fn corpus_c09(tier: Tier, seed: u64) -> Vec<Decl> {
             out.push(Decl { layout: nl, verdict: v, origin: name, boundary: true, field: Some(fi) });
         }
     }
+    // large declarations: one field per bit / nibble of the base (the first, a middle and the last field
+    // perturbed), range lists with 16-64 entries (the list field perturbed), deep nesting
+    {
+        let mut large: Vec<(Layout, Vec<usize>)> = Vec::new();
+        for (k, l) in sys_many_fields(Access::RW).into_iter().enumerate() {
+            if k % tier.pick(2, 1) != 0 {
+                continue;
+            }
+            let n = l.fields.len();
+            large.push((l, vec![0, n * 2 / 3, n - 1]));
+        }
+        for (k, l) in sys_long_lists().into_iter().enumerate() {
+            if k % tier.pick(3, 1) != 0 {
+                continue;
+            }
+            let fi = l.fields.iter().position(|f| f.list).unwrap_or(0);
+            large.push((l, vec![fi]));
+        }
+        for l in sys_deep_nesting(false) {
+            large.push((l, vec![0]));
+        }
+        for (l, fis) in large {
+            let v = layout_verdict(&l);
+            if !v.is_valid() {
+                inconclusive(&format!("generator bug: large layout not valid: {:?}\n{}", v, render_layout(&l, &RenderOpts::default())));
+            }
+            out.push(Decl { layout: l.clone(), verdict: v, origin: "generated".into(), boundary: false, field: None });
+            for fi in fis {
+                for (name, nl) in perturb(&l, fi) {
+                    let v = layout_verdict(&nl);
+                    out.push(Decl { layout: nl, verdict: v, origin: format!("large/{}", name), boundary: true, field: Some(fi) });
+                }
+            }
+        }
+    }
     // open declarations, systematically: lists naming a bit twice whose lengths add up to the type width (the
     // macro's reading), below / at / above the width of the base
     for b in [8u32, 16, 32, 64, 128, 12, 24, 40, 100] {
